@@ -320,7 +320,7 @@ func checkC07(c *Ctx, r *Report) {
 			if f.Pkg == nil || !strings.HasPrefix(f.Pkg.Pkg.Path()+"/", Mod) || strings.HasSuffix(f.Pkg.Pkg.Path(), controlsPkg) {
 				continue
 			}
-			for _, in := range findInstrs(f, func(in ssa.Instruction) bool {
+			for _, in := range findInstrsIn(f, func(in ssa.Instruction) bool {
 				return isCallTo(in, "(core/network.*).SetProtocol", "(core/network.*).SetService", "(*"+strT+").SetProtocol")
 			}) {
 				nUses++
@@ -428,13 +428,58 @@ func checkC07(c *Ctx, r *Report) {
 				if m == "SetStreamHandlerMatch" {
 					ok = ok && isParamVar(c, a[2], "m")
 				}
-				mc, isMC := strip2(a[len(a)-1]).(*ssa.MakeClosure)
-				ok = ok && isMC
+				// the wrapper: a function literal here, or the one an adapter helper (extracted since) returns
+				var mc *ssa.MakeClosure
+				if ls := phiLeaves(strip2(a[len(a)-1])); len(ls) == 1 {
+					mc, _ = strip2(ls[0]).(*ssa.MakeClosure)
+				}
+				ok = ok && mc != nil
 				if ok {
 					g := mc.Fn.(*ssa.Function)
+					// the captured variable that is the caller's handler (through the adapter's parameter, if any)
+					isHandlerFV := func(v ssa.Value) bool {
+						if ld, isLd := v.(*ssa.UnOp); isLd && ld.Op == token.MUL {
+							v = ld.X // captured by reference: a load of the cell
+						}
+						fv, isFV := v.(*ssa.FreeVar)
+						if !isFV {
+							return false
+						}
+						for i, q := range g.FreeVars {
+							if q == fv && i < len(mc.Bindings) {
+								b := strip2(mc.Bindings[i])
+								if al, isAl := b.(*ssa.Alloc); isAl {
+									// the cell holds what was stored into it once
+									var stored ssa.Value
+									n := 0
+									for _, r := range *al.Referrers() {
+										if st, isSt := r.(*ssa.Store); isSt && st.Addr == ssa.Value(al) {
+											stored, n = st.Val, n+1
+										}
+									}
+									if n != 1 {
+										return false
+									}
+									b = strip2(stored)
+								}
+								if p, isP := b.(*ssa.Parameter); isP && p.Parent() != f {
+									// the adapter's parameter: what f passes for it
+									for _, call := range callsIn(f, fnKey(p.Parent())) {
+										for j, hp := range p.Parent().Params {
+											if hp == p && j < len(call.Common().Args) {
+												b = strip2(call.Common().Args[j])
+											}
+										}
+									}
+								}
+								return isParamVar(c, b, "handler")
+							}
+						}
+						return false
+					}
 					res := (&pathEnum{Fn: g, Instr: func(in ssa.Instruction) int {
 						call, isCall := in.(*ssa.Call)
-						if isCall && !call.Call.IsInvoke() && isFreeVarOrParam(call.Call.Value, "handler") {
+						if isCall && !call.Call.IsInvoke() && (isHandlerFV(call.Call.Value) || (mc.Parent() == f && isFreeVarOrParam(call.Call.Value, "handler"))) {
 							// the stream handed on is the negotiated one (the closure's second parameter)
 							arg := ssa.Value(nil)
 							if len(call.Call.Args) == 1 {
@@ -499,7 +544,7 @@ func flushAssertReachesLazyConn(c *Ctx, basicP string) bool {
 	// static types stored into rw anywhere in the package
 	var stored []types.Type
 	for _, g := range c.FnsOfPkg(basicP) {
-		for _, in := range findInstrs(g, fieldWritePred(swT+".rw")) {
+		for _, in := range findInstrsIn(g, fieldWritePred(swT+".rw")) {
 			st, ok := in.(*ssa.Store)
 			if !ok {
 				continue
